@@ -152,7 +152,12 @@ Aux:
 				// ignore
 			default:
 				if !ss.Bound(Symbol(ad.Name)) {
-					ss.Let(Symbol(ad.Name), ad.Default)
+					val := ad.Default
+					if list, ok := val.(List); ok && 1 < len(list) {
+						d2 := depth + 1
+						val = ss.Eval(ListToFunc(ss, list, d2), d2)
+					}
+					ss.Let(Symbol(ad.Name), val)
 				}
 			}
 		case restMode:
@@ -165,7 +170,12 @@ Aux:
 				// ignore
 			default:
 				if !ss.Bound(Symbol(ad.Name)) {
-					ss.Let(Symbol(ad.Name), ad.Default)
+					val := ad.Default
+					if list, ok := val.(List); ok && 1 < len(list) {
+						d2 := depth + 1
+						val = ss.Eval(ListToFunc(ss, list, d2), d2)
+					}
+					ss.Let(Symbol(ad.Name), val)
 				}
 			}
 		case keyMode:
@@ -173,7 +183,12 @@ Aux:
 			if AmpAux == asym {
 				mode = auxMode
 			} else if !ss.Bound(asym) {
-				ss.Let(asym, ad.Default)
+				val := ad.Default
+				if list, ok := val.(List); ok && 1 < len(list) {
+					d2 := depth + 1
+					val = ss.Eval(ListToFunc(ss, list, d2), d2)
+				}
+				ss.Let(asym, val)
 			}
 		case auxMode:
 			val := ad.Default
